@@ -271,6 +271,34 @@ func c11Siblings(c *Ctx) {
 				okKid = ap.HasFields("PreviousEncryptionKey", "KeyId")
 			}
 			r.Check(okP && okKid, "R-C11.3", "types.(*"+tname+").PreviousX25519EncryptionKey roles", p.Pos(prevm.Pos()), "reads back (private, type, public, type) and the recorded key ID", "the previous key is not read back in the roles it was recorded in")
+			// a recorded previous key is always offered: a return that does not carry
+			// the derived key is reachable only through "receiver is nil", "no previous
+			// key recorded" or "derivation failed"
+			if okP {
+				derive := cs[0]
+				recvP := ssa.Value(prevm.Params[0])
+				gAbsent := core.AnyOf("receiver nil | no previous key recorded | derivation failed",
+					core.BoolCall("IsNil(receiver)", func(x *ssa.Call) bool {
+						return core.CalleeName(x.Common()) == mod+".IsNil" && len(x.Call.Args) == 1 && core.PathOf(x.Call.Args[0]).Root == recvP
+					}),
+					core.NilTest("receiver", func(pp core.Path) bool { return pp.Root == recvP && len(pp.Fields) == 0 }, true),
+					core.NilTest("PreviousEncryptionKey", func(pp core.Path) bool {
+						return pp.Root == recvP && len(pp.Fields) == 1 && pp.Fields[0] == "PreviousEncryptionKey"
+					}, true),
+					flipGuard(core.ErrNil("derive previous key", func(x *ssa.Call) bool { return x == derive })))
+				nNoKey := 0
+				for i, ret := range core.Returns(prevm) {
+					if kc, ki := core.CallResult(core.Strip(ret.Results[1])); kc == derive && ki == 0 {
+						continue
+					}
+					nNoKey++
+					res := core.CutReach(p, prevm, gAbsent, ret.Block())
+					r.CutOb(p, "R-C11.3", fmt.Sprintf("types.(*%s).PreviousX25519EncryptionKey return#%d without a key", tname, i), p.Pos(ret.Pos()), res, gAbsent)
+				}
+				if nNoKey == 0 {
+					r.Unk("R-C11.3", "types.(*"+tname+").PreviousX25519EncryptionKey returns without a key", p.Pos(prevm.Pos()), "none found (the nil-receiver / no-previous-key returns are expected)")
+				}
+			}
 		}
 	}
 	// the shared derivation uses its parameters in their roles
@@ -445,4 +473,13 @@ func c11Decrypt(c *Ctx) *aeadParams {
 	}
 
 	return da
+}
+
+
+// flipGuard: the fact holds on the other edge.
+func flipGuard(g core.Guard) core.Guard {
+	return core.Guard{Name: "not " + g.Name, Match: func(cond ssa.Value) (int, bool) {
+		s, ok := g.Match(cond)
+		return 1 - s, ok
+	}}
 }
